@@ -56,7 +56,7 @@ of the query (the code writes `0.5` there). -/
 theorem get_rewards_is_centre (chans : List (Chan α)) (centreR : List α → List α) (W : List (List α))
     (s a : List α) :
     getReward chans centreR W s a =
-      (rewardCategory chans W s a).bind (fun c => (W[c]?).map (fun w => centreR (slice (widths chans) 2 w))) ∧
+      (rewardCategory chans W s a).bind (fun c => (W[c]?).map (fun w => centreR (slice (wlens chans) 2 w))) ∧
     ∀ x' : List α,
       (∀ k, skipReward k = false → slice (widths chans) k (queryRow chans s a) = slice (widths chans) k x') →
       rewardCategory chans W s a = stepPredSkip chans skipReward W x' :=
@@ -223,7 +223,7 @@ end Core
 
 /-! ### Non-vacuity (ℚ; Fuzzy channels, alpha = 1/4, beta = 1, rho = 3/4 each; identity bounds) -/
 private def ch : List (Chan Rat) :=
-  [⟨fuzzyKernel (1/4) 1 1, 2, 1/4⟩, ⟨fuzzyKernel (1/4) 1 1, 2, 1/4⟩, ⟨fuzzyKernel (1/4) 1 1, 2, 1/2⟩]
+  [⟨fuzzyKernel (1/4) 1 1, 2, 1/4, 2⟩, ⟨fuzzyKernel (1/4) 1 1, 2, 1/4, 2⟩, ⟨fuzzyKernel (1/4) 1 1, 2, 1/2, 2⟩]
 private def cfgQ : SearchCfg (List Rat) (List Rat) := fusionCfg .plus (· + 0) (· - 0) 0
 private def ccQ (v : List Rat) : List Rat := v ++ vcompl v
 private def S0 : List (List Rat) := [[0, 1], [1, 0], [0, 1]]
